@@ -23,7 +23,7 @@ VARIABLES live, shape, meta, metaC, user, userC, act, ret
 vars == <<live, shape, meta, metaC, user, userC, act, ret>>
 view == <<live, shape, meta, metaC, user, userC>>
 Ids == 1..MaxDna
-P(S) == IF SimK = 0 \/ S = {} THEN S ELSE RandomSubset(IF SimK < Cardinality(S) THEN SimK ELSE Cardinality(S), S)
+P(S) == IF SimK = 0 \/ S = {} THEN S ELSE RandomSubset(IF SimK < Cardinality(S) THEN SimK ELSE Cardinality(S), IF act = <<>> THEN {} ELSE S)   \* the variable keeps TLC from folding the choice into a constant
 
 Init ==
   /\ live = [d \in Ids |-> d = 1]
